@@ -203,5 +203,5 @@ SUBCHECKS = [
                   "reference model, monotone in each threshold, survival / par spread / implied threshold / implied "
                   "spread / E[CDS payoff] by numerical integration, sum of the chain's default-state rates vs theta "
                   "within the computed truncation leak; non-trivial = d>=2, asymmetric grid or threshold near the bound",
-             strategy=strat_case, budget={"quick": 480, "thorough": 4800}, shards={"quick": 16, "thorough": 16}),
+             strategy=strat_case, budget={"quick": 1440, "thorough": 4800}, shards={"quick": 16, "thorough": 16}),
 ]
